@@ -8,3 +8,7 @@ import PlcProofs.Props.C10
 #print axioms C10.duration_split_exact
 #print axioms C10.duration_render_read
 #print axioms C10.tod_fraction_read
+#print axioms C10.renderer_words_are_keywords
+#print axioms C10.renderer_operators_are_table_tokens
+#print axioms C10.renderer_unary_operators
+#print axioms C10.renderer_direct_literals_lex
